@@ -4,7 +4,7 @@ from .. import nodegen
 from ._nodecommon import *
 
 ID = "C15"
-LEAN_MODULES = ["VpnCloud.Proofs.C15", "VpnCloud.Proofs.C15Node", "VpnCloud.Proofs.C15More", "VpnCloud.Proofs.GuardsUsed"]
+LEAN_MODULES = ["VpnCloud.Proofs.C15", "VpnCloud.Proofs.C15Node", "VpnCloud.Proofs.C15More", "VpnCloud.Proofs.GuardsUsed", "VpnCloud.Proofs.C15Join"]
 THEOREMS = ["VpnCloud.Proofs.C15." + n for n in ("interval_safe", "keepalive_default_safe", "backoff_bounded")] + [
             "VpnCloud.Proofs.C15Node.housekeep_removes_expired", "VpnCloud.Proofs.C15Node.expired_peer_removed"] + [
             "VpnCloud.Proofs.C15More." + n for n in ("housekeep_schedules_safe", "housekeep_delay_safe_for_peer", "housekeep_keeps_schedule", "housekeep_interval_no_panic",
@@ -50,3 +50,4 @@ def gen(tier, rng):
     # unencrypted meshes announce like all others: nobody is timed out over several peer timeouts
     yield nodegen.plain_long_script(rng, "plain-long", 25, 80)
     yield nodegen.announce_script(rng, "announce", 100 if thorough else 40)          # keepalives / node information refresh the expiry; advertised timeouts vary
+THEOREMS = THEOREMS + ["VpnCloud.Proofs.C15Join." + n for n in ("joined_peer_survives_tick", "joined_peer_gone_after_expiry", "joined_peer_gets_first_announcement", "sessionTickOk_of_waiting")]
